@@ -594,6 +594,22 @@ fn do_docs(n: usize, limit: usize, maxlen: usize) {
         log_doc(&t, limit, &extra, &mut count);
     }
     mark("nesting", count, &mut fam);
+    // 5a. a few long documents (buffers in the parser start at 256 characters / 16 elements)
+    {
+        let mut st = String::from("\"");
+        for i in 0..300 { st.push_str(["x", "\\n", "é", "\\u00e9", "😀", "\\ud83d\\ude00", " ", "\\\\"][i % 8]); }
+        st.push('"');
+        log_doc(&st, limit, &[], &mut count);
+        let arr: Vec<String> = (0..100).map(|i| format!("{}", i * 37 % 101)).collect();
+        log_doc(&format!("[{}]", arr.join(",")), limit, &[], &mut count);
+        log_doc(&format!("[{}]", arr.join(" ,\n ")), limit, &[], &mut count);
+        let mem: Vec<String> = (0..60).map(|i| format!("\"k{}\":[{}]", i, i)).collect();
+        log_doc(&format!("{{{}}}", mem.join(",")), limit, &[], &mut count);
+        let sib: Vec<&str> = (0..300).map(|i| if i % 2 == 0 { "[]" } else { "{}" }).collect();
+        log_doc(&format!("[{}]", sib.join(",")), limit, &[], &mut count);       // 300 sibling containers: depth 2
+        log_doc(&format!("{{\"a\":[{}]}}", sib.join(",")), limit, &[], &mut count);
+    }
+    mark("long documents", count, &mut fam);
     // 5b. number literals beyond what TLC compares exactly (> 15 digits, extremes): value checked with from_str (nx)
     let mut lits: Vec<String> = vec![
         "9007199254740993".into(), "9007199254740992.5".into(), "18446744073709551616".into(), "9223372036854775808".into(), "-9223372036854775809".into(),
